@@ -83,6 +83,10 @@ def fail_fast(prop, tier, lemmas, njobs):
                     rp = _run_worker("vk.replay", meta["module"], name, 120, {"VK_MODE": "replay"}, arg3=call)
                 else:
                     rp = None
+                if rp and rp.get("failed") and meta.get("inductive"):
+                    inconcl += 1
+                    print(f"INCONCLUSIVE property={prop} lemma={name}: inductive step fails (constructed state)")
+                    continue
                 if rp and rp.get("failed"):
                     print(f"VIOLATION property={prop} replay=(fail-fast, not stored)")
                     print(f"  lemma {name}: {str(m.get('detail'))[:300]}")
@@ -198,7 +202,7 @@ def main() -> int:
             else:
                 results[name]["twins"][label] = r
 
-    violations, inconclusive, lines = [], [], []
+    violations, inconclusive, lines, weak = [], [], [], []
     os.makedirs(os.path.join(ROOT, "replays"), exist_ok=True)
     for name, meta in lemmas:
         R = results[name]
@@ -220,7 +224,10 @@ def main() -> int:
                     json.dump({"property": prop, "module": meta["module"], "lemma": name, "call": call,
                                "solver_message": m.get("detail"), "replay_exception": rp.get("exc"),
                                "how": f"cd /verif && .venv/bin/python -m vk.replay {meta['module']} {name} {path}"}, f, indent=1)
-                violations.append((name, path, m.get("detail", "")[:300]))
+                if meta.get("inductive"):
+                    weak.append((name, path, m.get("detail", "")[:300]))
+                else:
+                    violations.append((name, path, m.get("detail", "")[:300]))
             else:
                 inconclusive.append((name, "counterexample did not reproduce concretely: " + str(m.get("detail"))[:300]))
         elif v != "CONFIRMED":
@@ -233,6 +240,13 @@ def main() -> int:
                 # some other failure on the way: the main run reports it; not a vacuity problem
                 continue
             inconclusive.append((name, f"reachability twin '{label}' not reached ({tv}: {str(t.get('detail'))[:200]})"))
+
+    # inductive-step counterexamples count only next to a public-API violation (see vk/h.py)
+    if weak and violations:
+        violations += weak
+    else:
+        for (name, path, detail) in weak:
+            inconclusive.append((name, "inductive step fails from a constructed invariant state (no public-API counterexample): " + detail))
 
     # known findings: replay each witness without exclusion
     known_lines = []
